@@ -61,7 +61,7 @@ func (l *subCertAIAInternalName) Execute(c *x509.Certificate) *lint.LintResult {
 	for _, u := range c.OCSPServer {
 		purl, err := url.Parse(u)
 		if err != nil {
-			return &lint.LintResult{Status: lint.Error}
+			return &lint.LintResult{Status: lint.Fatal, Details: "could not parse URL in AIA: " + err.Error()}
 		}
 
 		if net.ParseIP(purl.Host) != nil {
@@ -75,7 +75,7 @@ func (l *subCertAIAInternalName) Execute(c *x509.Certificate) *lint.LintResult {
 	for _, u := range c.IssuingCertificateURL {
 		purl, err := url.Parse(u)
 		if err != nil {
-			return &lint.LintResult{Status: lint.Error}
+			return &lint.LintResult{Status: lint.Fatal, Details: "could not parse URL in AIA: " + err.Error()}
 		}
 
 		if net.ParseIP(purl.Host) != nil {
